@@ -173,6 +173,32 @@ def trapz_weights(t):
     return w
 
 
+def multi_lowrank(rng: Rng, P, n, R=3):
+    """`P` correlated components (different grid sizes, uniform and non-uniform grids) of `n` curves each,
+    every component of rank ≤ R with smooth shapes, shared dyadic coefficients whose columns sum to zero
+    (so the sample mean is exactly zero and any smoothing of the mean reproduces it)."""
+    coef = [[rng.dyadic(-4, 4, 2) for _ in range(R)] for _ in range(n - 1)]
+    coef.append([-sum(c[r] for c in coef) for r in range(R)])
+    comps = []
+    for _ in range(P):
+        m = rng.randint(8, 16)
+        t = grid(rng, m)
+        lo, hi = t[0], t[-1]
+        u = [Fraction(round((x - lo) / (hi - lo) * 64), 64) for x in t]
+        shapes = [[Fraction(1)] * m, u, [x * x for x in u], [x * x * x - x for x in u], [(2 * x - 1) ** 4 for x in u]]
+        idx = rng.sample(range(5), R)
+        mix = [[rng.dyadic(-2, 2, 1) for _ in range(R)] for _ in range(R)]
+        X = [[sum(sum(c[r] * mix[r][q] for r in range(R)) * shapes[idx[q]][j] for q in range(R)) for j in range(m)]
+             for c in coef]
+        comps.append(dict(t=Svec(t), X=Smat(X)))
+    return comps
+
+
+def pow2(rng: Rng, wide=True):
+    """A power-of-two data scale (exact in float64 and in ℚ): mostly 1, sometimes 2^±10 … 2^±20 (≈ 1e-6 … 1e6)."""
+    return Fraction(2) ** rng.choice([0, 0, 0, -20, -10, 10, 20] if wide else [0])
+
+
 def S(x):
     """Rational -> protocol string."""
     return rs(x)
